@@ -110,14 +110,14 @@ variable {G P : Type}
 /-- if every remaining prediction is the copy `pred g` of a still-available, distinguishable gt `g`,
 the loop pairs each with its own gt at OKS `one` and leaves nothing unmatched -/
 theorem matchLoop_perfect (oks : G → P → Option R) (pred : G → P) (thr one : R) (hthr : thr < one)
-    (hself : ∀ g, oks g (pred g) = some one)
-    (hdist : ∀ g g' w, g' ≠ g → oks g' (pred g) = some w → w < one) :
-    ∀ (gs avail : List G), gs.Perm avail → avail.Nodup →
+    (L : List G) (hself : ∀ g ∈ L, oks g (pred g) = some one)
+    (hdist : ∀ g ∈ L, ∀ g' ∈ L, ∀ w, g' ≠ g → oks g' (pred g) = some w → w < one) :
+    ∀ (gs avail : List G), gs.Perm avail → avail.Nodup → (∀ x ∈ avail, x ∈ L) →
       matchLoop oks thr (gs.map pred) avail = (gs.map (fun g => (g, pred g, one)), [])
-  | [], avail, hp, _ => by
+  | [], avail, hp, _, _ => by
     have : avail = [] := List.Perm.eq_nil hp.symm
     subst this; simp [matchLoop]
-  | g :: gs, avail, hp, hnd => by
+  | g :: gs, avail, hp, hnd, hL => by
     have hg : g ∈ avail := hp.subset List.mem_cons_self
     cases avail with
     | nil => simp at hg
@@ -126,7 +126,7 @@ theorem matchLoop_perfect (oks : G → P → Option R) (pred : G → P) (thr one
       have higet : (a :: as)[i]? = some g := by rw [List.getElem?_eq_getElem hi, hig]
       have hb : best thr ((a :: as).map (fun g' => oks g' (pred g))) = some (i, one) := by
         apply best_unique_max thr one hthr
-        · rw [List.getElem?_map, higet]; simp [hself]
+        · rw [List.getElem?_map, higet]; simp [hself g (hL g hg)]
         · intro j w hj hjw
           rw [List.getElem?_map] at hjw
           cases hgj : (a :: as)[j]? with
@@ -140,12 +140,13 @@ theorem matchLoop_perfect (oks : G → P → Option R) (pred : G → P) (thr one
               have e1 : (a :: as)[j] = g' := by
                 rcases List.getElem?_eq_some_iff.mp hgj with ⟨_, h⟩; exact h
               exact hj ((List.Nodup.getElem_inj_iff hnd).mp (e1.trans hig.symm))
-            exact hdist g g' w hne (by simpa using hjw)
+            exact hdist g (hL g hg) g' (hL g' (List.mem_of_getElem? hgj)) w hne (by simpa using hjw)
       have hperm' : gs.Perm ((a :: as).eraseIdx i) := by
         have h1 : (g :: (a :: as).eraseIdx i).Perm (a :: as) := cons_eraseIdx_perm _ i g higet
         exact (List.Perm.cons_inv (hp.trans h1.symm))
       have hnd' : ((a :: as).eraseIdx i).Nodup := hnd.sublist (List.eraseIdx_sublist _ _)
-      have ih := matchLoop_perfect oks pred thr one hthr hself hdist gs _ hperm' hnd'
+      have ih := matchLoop_perfect oks pred thr one hthr L hself hdist gs _ hperm' hnd'
+        (fun x hx => hL x ((List.eraseIdx_sublist _ _).subset hx))
       rw [List.map_cons, matchLoop_cons, hb]
       dsimp only
       rw [higet]
@@ -206,6 +207,40 @@ theorem processFrames_trunc (oks : G → P → Option R) (score : P → R) (thr 
     refine ⟨(matchInstances_trunc_prefix oks score thr gts prs k).sublist.append ih.1, ?_⟩
     have h1 := matchInstances_count oks score thr gts prs
     have h2 := matchInstances_count oks score thr gts ((sortDesc score prs).take k)
+    simp only [List.length_append]
+    omega
+
+
+/-! ### truncation with a separate `k` for every frame (by position) -/
+
+/-- keep only the `k i` highest-scoring predictions of the `i`-th frame -/
+def truncFramesK (score : P → R) (k : Nat → Nat) : Nat → List (Frame G P) → List (Frame G P)
+  | _, [] => []
+  | i, f :: fs =>
+    { gts := f.gts, prs := f.prs.map (fun prs => (sortDesc score prs).take (k i)) } ::
+      truncFramesK score k (i + 1) fs
+
+theorem processFrames_truncK (oks : G → P → Option R) (score : P → R) (thr : R) (k : Nat → Nat) :
+    ∀ (frames : List (Frame G P)) (i : Nat),
+      (processFrames oks score thr (truncFramesK score k i frames)).1.Sublist
+        (processFrames oks score thr frames).1 ∧
+      (processFrames oks score thr (truncFramesK score k i frames)).1.length +
+        (processFrames oks score thr (truncFramesK score k i frames)).2.length =
+      (processFrames oks score thr frames).1.length + (processFrames oks score thr frames).2.length
+  | [], _ => ⟨List.Sublist.refl _, rfl⟩
+  | ⟨gts, none⟩ :: fs, i => by
+    have ih := processFrames_truncK oks score thr k fs (i + 1)
+    have e : truncFramesK score k i (⟨gts, none⟩ :: fs) = ⟨gts, none⟩ :: truncFramesK score k (i + 1) fs := rfl
+    rw [e, processFrames_cons_none, processFrames_cons_none]
+    exact ih
+  | ⟨gts, some prs⟩ :: fs, i => by
+    have ih := processFrames_truncK oks score thr k fs (i + 1)
+    have e : truncFramesK score k i (⟨gts, some prs⟩ :: fs) =
+        ⟨gts, some ((sortDesc score prs).take (k i))⟩ :: truncFramesK score k (i + 1) fs := rfl
+    rw [e, processFrames_cons_some, processFrames_cons_some]
+    refine ⟨(matchInstances_trunc_prefix oks score thr gts prs (k i)).sublist.append ih.1, ?_⟩
+    have h1 := matchInstances_count oks score thr gts prs
+    have h2 := matchInstances_count oks score thr gts ((sortDesc score prs).take (k i))
     simp only [List.length_append]
     omega
 
